@@ -134,6 +134,18 @@ func walFacts() {
 	add("walTruncateUpdatesOffsetsOnAllPaths", "Bool", boolLean(all), "server/wal/wal_impl.go: (*wal).TruncateLog",
 		fmt.Sprintf("%d `return lastSafeOffset, …` statements; all dominated by stores to lastAppendedOffset and lastSyncedOffset: %v", n, all))
 
+	// a segment is msync'ed before it is closed at a rollover (the next sync covers the new segment only,
+	// and lastSyncedOffset moves over everything appended)
+	ro := funcDecl(w, "wal", "rolloverSegment")
+	rob := ""
+	if ro != nil {
+		rob = squash(src(ro.Body))
+	}
+	iFl := strings.Index(rob, "if t.syncData { if err = t.currentSegment.Flush(); err != nil { return err } }")
+	iCl := strings.Index(rob, "t.currentSegment.Close()")
+	add("walRolloverFlushesSegment", "Bool", boolLean(iFl >= 0 && iCl > iFl), "server/wal/wal_impl.go: (*wal).rolloverSegment",
+		"with SyncData the current segment is flushed before it is closed and replaced")
+
 	// LastOffset() reports the synced offset
 	lo := funcDecl(w, "wal", "LastOffset")
 	synced := lo != nil && strings.Contains(squash(src(lo.Body)), "return t.lastSyncedOffset.Load()")
